@@ -129,7 +129,7 @@ def claim_event(src, name: int, prio=6, dst=255):
 
 
 def build_history(pool: Pool, rng: random.Random, sources, n_events: int, claims: dict | None = None,
-                  p_claim=0.15, p_fast=0.35, interleave_fast=True, p_same_seq=0.0):
+                  p_claim=0.15, p_fast=0.35, interleave_fast=True, p_same_seq=0.0, p_repeat=0.12):
     """-> list[Ev].  claims: {src: [NAME ints]} to draw address claims from."""
     events = []
     pending = []          # partially sent fast messages: (remaining frames list)
@@ -177,8 +177,13 @@ def build_history(pool: Pool, rng: random.Random, sources, n_events: int, claims
             if pb is None:
                 continue
             dst = rng.choice([255, 17]) if ((d.pgn >> 8) & 0xFF) < 240 else 255
-            events.append(Ev(rng.randrange(8), d.pgn, src, dst, pb, "single", msg_no, definition=d.id))
+            prio = rng.randrange(8)
+            events.append(Ev(prio, d.pgn, src, dst, pb, "single", msg_no, definition=d.id))
             msg_no += 1
+            # instruments repeat themselves: the very same frame again, at once or a little later (each one is a message)
+            while rng.random() < p_repeat:
+                events.append(Ev(prio, d.pgn, src, dst, pb, "single", msg_no, definition=d.id))
+                msg_no += 1
     for q in pending:          # flush
         events.extend(q)
     return events
